@@ -19,23 +19,24 @@ import (
 const snapdMod = "github.com/snapcore/snapd"
 
 type Engine struct {
-	repo           string
-	fset           *token.FileSet
-	prog           *ssa.Program
-	pkgs           []*packages.Package
-	byPath         map[string]*packages.Package
-	cs             *ContractSet
-	effCache       map[*ssa.Function]*effSet
-	effBusy        map[*ssa.Function]bool
-	autoPureCache  map[*ssa.Function]int // 0 unknown 1 yes 2 no
-	readsCache     map[*ssa.Function]map[string]string
-	constGlobals   map[string]*constGlobal // key "G:..." -> literal value info
-	globalStores   map[*ssa.Global]bool
-	globalsScanned map[*ssa.Package]bool
-	immGlobals     map[string]bool
-	allScanned     bool
-	effSo          *Sorts
-	LoadSeconds    float64
+	skipOwnContract *ssa.Function // frameConfirmed: analyse this function's body instead of its assigns clause
+	repo            string
+	fset            *token.FileSet
+	prog            *ssa.Program
+	pkgs            []*packages.Package
+	byPath          map[string]*packages.Package
+	cs              *ContractSet
+	effCache        map[*ssa.Function]*effSet
+	effBusy         map[*ssa.Function]bool
+	autoPureCache   map[*ssa.Function]int // 0 unknown 1 yes 2 no
+	readsCache      map[*ssa.Function]map[string]string
+	constGlobals    map[string]*constGlobal // key "G:..." -> literal value info
+	globalStores    map[*ssa.Global]bool
+	globalsScanned  map[*ssa.Package]bool
+	immGlobals      map[string]bool
+	allScanned      bool
+	effSo           *Sorts
+	LoadSeconds     float64
 }
 
 type constGlobal struct {
